@@ -378,16 +378,17 @@ def histValueInto (p : Point) (old : SPValue) : SPValue :=
           max := setOptF (match old with | .hist h => h.max | _ => none) (optOf p.hasMax p.max),
           buckets := p.buckets }
 
-theorem convHistogram_eq (p : Point) (pt : SPoint) (hl : flagged p = true ∨ p.buckets.length = p.bounds.length + 1) :
+theorem convHistogram_eq (p : Point) (pt : SPoint) (hl : p.histLenOk = true) :
     convHistogram p pt = .ok { pt with ts := p.ts, start := p.start, value := histValueInto p pt.value } := by
   simp only [convHistogram, histValueInto]
   by_cases hf : flagged p = true
   · simp [hf]
-  · have hl' : p.buckets.length = p.bounds.length + 1 := by
+  · have hcond : (!(p.buckets.isEmpty && p.bounds.isEmpty) && p.buckets.length != p.bounds.length + 1) = false := by
+      simp only [Point.histLenOk, hf, Bool.false_or, Bool.or_eq_true, beq_iff_eq] at hl
       rcases hl with h | h
-      · exact absurd h hf
-      · exact h
-    simp only [hf, hl']
+      · simp [h]
+      · simp [h]
+    simp only [hf, hcond]
     cases pt.value <;> simp
 
 theorem histValueInto_spec (p : Point) (old : SPValue) :
@@ -414,7 +415,7 @@ def histTmp (p : Point) (st : WState) : SAttrs :=
   tmpAfterEx p.exemplars st.tmp { st.cur.point with ts := p.ts, start := p.start, value := histValueInto p st.cur.point.value }
 
 theorem writeHistogram_cons (p : Point) (ps : List Point) (st : WState)
-    (h1 : flagged p = true ∨ p.buckets.length = p.bounds.length + 1) (h2 : ∀ e ∈ p.exemplars, e.vt ≤ 2) :
+    (h1 : p.histLenOk = true) (h2 : ∀ e ∈ p.exemplars, e.vt ≤ 2) :
     writeHistogram (p :: ps) st = writeHistogram ps ({ st with cur := histRecord p st, tmp := histTmp p st }).write := by
   simp only [writeHistogram, convHistogram_eq p st.cur.point h1, convExemplars_eq p.exemplars st.tmp _ h2, histRecord, histTmp]
 
@@ -476,8 +477,8 @@ theorem histRecord_spec (p : Point) (st : WState) (rid : ResId) (sid : ScopeId) 
     · intro _; simpa [histRecord, histBack] using hx.2
 
 theorem cleanHist_ok {p : Point} (h : p.cleanHist = true) :
-    (flagged p = true ∨ p.buckets.length = p.bounds.length + 1) ∧ ∀ e ∈ p.exemplars, e.vt ≤ 2 := by
-  simp only [Point.cleanHist, Bool.and_eq_true, Bool.or_eq_true, beq_iff_eq] at h
+    p.histLenOk = true ∧ ∀ e ∈ p.exemplars, e.vt ≤ 2 := by
+  simp only [Point.cleanHist, Bool.and_eq_true] at h
   exact ⟨h.2, clean_vt (exs_of_exOk h.1.2)⟩
 
 theorem writeHistogram_spec (rid : ResId) (sid : ScopeId) (m : Metric) (ht : m.type = .hist) :
